@@ -357,6 +357,69 @@ func aoChoiceListing(cs aoCase, root *jschema.JSchema) (fs []core.Finding) {
 	return fs
 }
 
+// aoFan: AllOfWide!FanTypes - heirs without own properties that share their first listed type.
+type aoFan struct {
+	Fan struct {
+		M    int  `json:"m"`
+		Bk   int  `json:"bk"`
+		Same bool `json:"same"`
+	} `json:"fan"`
+	Types []struct {
+		Name string `json:"name"`
+		D    aoDef  `json:"d"`
+	} `json:"types"`
+	Heirs [][]string `json:"heirs"`
+}
+
+func aoFanEval(fc aoFan) []core.Finding {
+	return core.Guard("allOf-fan", func() []core.Finding {
+		var lines []string
+		for i := range fc.Heirs {
+			sep := ","
+			if i == len(fc.Heirs)-1 {
+				sep = ""
+			}
+			lines = append(lines, fmt.Sprintf("  \"h%d\": @h%d%s", i+1, i+1, sep))
+		}
+		text := "{\n" + strings.Join(lines, "\n") + "\n}"
+		dump := "ROOT " + strings.ReplaceAll(text, "\n", " ")
+		var fs []core.Finding
+		for _, order := range []bool{false, true} {
+			root := jschema.New("root", text)
+			idx := make([]int, len(fc.Types))
+			for i := range idx {
+				idx[i] = i
+				if order {
+					idx[i] = len(fc.Types) - 1 - i
+				}
+			}
+			for _, i := range idx {
+				t := fc.Types[i]
+				if !order {
+					dump += fmt.Sprintf("\nTYPE @%s %s", t.Name, strings.ReplaceAll(aoText(t.D, nil), "\n", " "))
+				}
+				if err := root.AddType("@"+t.Name, jschema.New("@"+t.Name, aoText(t.D, nil))); err != nil {
+					return []core.Finding{{Class: "allof:addtype", What: fmt.Sprintf("AddType(@%s): %v\n%s", t.Name, firstLineOf(err), dump)}}
+				}
+			}
+			if err := root.Check(); err != nil {
+				return append(fs, core.Finding{Class: fmt.Sprintf("allof:fan:refused-valid-code-%d", errCode(err)), What: fmt.Sprintf("valid inheritance refused: %v\n%s", firstLineOf(err), dump)})
+			}
+			ex, err := root.Example()
+			v, derr := jvDecode(ex)
+			if err != nil || derr != nil || v.kind != "object" || len(v.kids) != len(fc.Heirs) {
+				return append(fs, core.Finding{Class: "allof:fan:example", What: fmt.Sprintf("Example() = %q %v\n%s", ex, err, dump)})
+			}
+			for i, want := range fc.Heirs {
+				if v.kids[i].kind != "object" || strings.Join(v.kids[i].keys, ",") != strings.Join(want, ",") {
+					return append(fs, core.Finding{Class: "allof:fan:example-keys", What: fmt.Sprintf("heir #%d has the keys %v in Example(), its listed types give %v\n%s", i+1, v.kids[i].keys, want, dump)})
+				}
+			}
+		}
+		return fs
+	})
+}
+
 func runC07(c *core.Ctx) error {
 	type cf struct{ name, body string }
 	mko := func(n int, keys string, ml int, aps string, nest string, choice string, optdef string) string {
@@ -386,7 +449,17 @@ func runC07(c *core.Ctx) error {
 	// heirs with many own keys (AllOfWide.tla): the duplicate, or the new key, at every edge position
 	{
 		var wide []aoCase
+		var fans []aoFan
 		res, err := tlc.Run(tlc.Opts{Module: "AllOfWide", Cfg: "AllOfWide.cfg", Workers: 4, OnLine: func(l string) {
+			if strings.HasPrefix(l, `{"fan"`) {
+				var fc aoFan
+				if err := json.Unmarshal([]byte(l), &fc); err != nil {
+					c.InfraError("bad fan case: %v", err)
+					return
+				}
+				fans = append(fans, fc)
+				return
+			}
 			var cs aoCase
 			if err := json.Unmarshal([]byte(l), &cs); err != nil {
 				c.InfraError("bad wide case: %v", err)
@@ -414,6 +487,14 @@ func runC07(c *core.Ctx) error {
 			c.Nontrivial("wide" + aoDump(wide[i]))
 		})
 		c.Set("replayed_AllOfWide.cfg", len(wide))
+		if len(fans) < 10 {
+			return fmt.Errorf("AllOfWide emitted %d fan cases", len(fans))
+		}
+		for _, fc := range fans {
+			c.CountEval(1)
+			c.Report(fc, aoFanEval(fc))
+		}
+		c.Set("replayed_fans", len(fans))
 	}
 	for _, cfg := range cfgs {
 		var cases []aoCase
